@@ -11,7 +11,7 @@ export VERIF_REPO=$REPO
 IDS="$*"; [ -n "$IDS" ] || IDS=$(ls seeded | grep -v '\.md$')
 CHECKS=$(python3 -c "import json;print(' '.join(c['property_id'] for c in json.load(open('MANIFEST.json'))['checks']))")
 echo "# repo=$REPO checks=$CHECKS"
-for c in $CHECKS; do bin/check $c >/dev/null 2>&1 || echo "CLEAN-TREE-ALARM $c"; done
+[ -n "$SKIP_CLEAN" ] || for c in $CHECKS; do bin/check $c >/dev/null 2>&1 || echo "CLEAN-TREE-ALARM $c"; done
 for id in $IDS; do
   [ -f seeded/$id/patch.diff ] || continue
   git -C $REPO checkout -q -- . ; git -C $REPO apply $ROOT/seeded/$id/patch.diff || { echo "$id APPLY-FAILED"; continue; }
